@@ -525,6 +525,8 @@ def main(harness, tier, seed, jobs=None):
     if os.environ.get("PVX_NO_OPEN_FINDINGS"):      # debugging aid: check without excluding any known region
         fopen = []
 
+    from . import selftest
+    selftest_checks = selftest.run(seed, 80)     # number model vs exact fractions (raises on any mismatch)
     if hasattr(H, "prepare"):
         H.prepare(tier)     # e.g. build the compiled kernels from the working tree
 
@@ -721,6 +723,7 @@ def main(harness, tier, seed, jobs=None):
         "problems": problems[:20],
         "per_case": sorted(agg["per_case"], key=lambda d: -(d["wall_s"] or 0))[:40],
         "jobs": jobs,
+        "number_model_selftest_checks": selftest_checks,
         "case_filter": os.environ.get("PVX_FILTER"),
     }
     evidence = {"property_id": prop, "tier": tier, "seed": int(seed), "level": "model_checking",
